@@ -145,8 +145,9 @@ fn main()
 		let nbl = if thorough { 3_000_000 } else { 60_000 };
 		for _ in 0..nbl { e(Bl{off: rng.range(-16777300, 16777300) as i32}, &mut out); }
 		if thorough { let mut v = -16777216i32; while v < 16777216 { e(Bl{off: v}, &mut out); v += 2 * 7; } }
-		// buffer capacities 0..4 for one 16-bit, one 32-bit and one unrepresentable instruction of every shape
-		for cap in 0..=4
+		// buffer capacities 0..4 and larger than any instruction (5, 6, 8, 64) for one 16-bit, one 32-bit and one
+		// unrepresentable instruction of every shape
+		for cap in [0usize, 1, 2, 3, 4, 5, 6, 8, 64]
 		{
 			for i in [Nop, Dmb, Bl{off: 4}, Bl{off: 3}, Adc{dst: reg(0), rhs: reg(1)}, Adc{dst: reg(8), rhs: reg(1)}, Udfw{info: 0x1234},
 				Mrs{dst: reg(0), src: sys(0)}, Msr{dst: sys(20), src: reg(13)}, Push{registers: RegisterSet::of(0)}, Push{registers: RegisterSet::of(1)}]
